@@ -153,12 +153,11 @@ class Tracker:
 
             # Advection
             if self.vertical_advection:
-                # The copy in the state follows the particles when the
-                # output step has removed dead ones after force.update()
-                if "w" in state.variables:
+                W = force.variables["w"]
+                # The output step may have removed dead particles after
+                # force.update(), the copy in the state follows the particles
+                if len(W) != len(Z) and "w" in state.variables:
                     W = state["w"]
-                else:
-                    W = force.variables["w"]
                 # Backward tracking follows the flow in the opposite direction
                 if getattr(self.modules["time"], "time_reversal", False):
                     W = -W
